@@ -239,8 +239,17 @@ def _audit(viol, what, oid, got, before, after, local):
             viol.append({"why": "a corrupted, unprotected object was not deleted by " + what, "oid": oid})
 
 
+VERIFY_ARGS = ["omitted", "none", "true"]
+
+
 def run_verify_add(ctx, n):
-    """a store configured to verify never retains a mismatching object after an add"""
+    """a store configured to verify never retains a mismatching object after an add - however the caller states its own
+    wish (verify left out, passed as None = "no opinion, the store's setting applies" as index/fetch.py forwards
+    data.odb.verify of a remote whose key is unset, or True), and whether the add is issued directly or by transfer()
+    from another store (check_exists off, batches, optional hard links)"""
+    from dvc_data.hashfile.hash_info import HashInfo
+    from dvc_data.hashfile.transfer import transfer
+
     rng = ctx.rng
     for _ in range(n):
         root = ctx.mkdtemp()
@@ -258,30 +267,57 @@ def run_verify_add(ctx, n):
         good = gen.rand_content(rng) + b"g"
         bad = good + b"CORRUPT"
         oid = md5hex(good)
-        p = os.path.join(root, "payload")
         corrupt = rng.random() < 0.6
-        with open(p, "wb") as f:
-            f.write(bad if corrupt else good)
-        errs = []
-        pre = rng.random() < 0.3
-        if pre:
-            stores.put_raw(odb.path, oid, bad)  # a mismatching object is already sitting there
-        # the source may be a write-protected file (an object of another cache, a protected workspace link) taken by hard link
+        route = "transfer" if rng.random() < 0.4 else "add"
+        varg = rng.choice(VERIFY_ARGS if route == "add" else VERIFY_ARGS[1:])  # transfer() always states a value
+        vkw = {} if varg == "omitted" else {"verify": None if varg == "none" else True}
         hardlink = rng.random() < 0.4
-        if rng.random() < 0.5:
-            os.chmod(p, 0o444)
-        kind, res = safe_call(lambda: odb.add(p, fs, oid, hardlink=hardlink, on_error=lambda o, e: errs.append(o)))
+        protect_src = rng.random() < 0.5
+        errs = []
+        # a mismatching object is already sitting there (on the transfer route only in a local store: a generic one
+        # answers the status query "present" from the name alone, no add is issued and the property is silent)
+        pre = rng.random() < 0.3 and (route == "add" or local)
+        if pre:
+            stores.put_raw(odb.path, oid, bad)
+        src_local = None
+        if route == "add":
+            p = os.path.join(root, "payload")
+            with open(p, "wb") as f:
+                f.write(bad if corrupt else good)
+            # the source may be a write-protected file (an object of another cache, a protected workspace link) taken by hard link
+            if protect_src:
+                os.chmod(p, 0o444)
+            kind, res = safe_call(lambda: odb.add(p, fs, oid, hardlink=hardlink, on_error=lambda o, e: errs.append(o), **vkw))
+        else:
+            # the source store holds the bytes under the name; a local source trusts them only when write-protected
+            # (an unprotected mismatching object would be dropped from it by the status query - C11)
+            src_local = rng.random() < 0.5
+            sdb = stores.make_odb(os.path.join(root, "remote"), local=src_local)
+            p = stores.put_raw(sdb.path, oid, bad if corrupt else good, mode=0o444 if (protect_src or (src_local and corrupt)) else None)
+
+            def do_transfer():
+                r = transfer(sdb, odb, {HashInfo("md5", oid)}, hardlink=hardlink, **vkw)
+                errs.extend(sorted(h.value for h in r.failed))
+                return sorted(h.value for h in r.transferred)
+
+            kind, res = safe_call(do_transfer)
         if st:
             st.close()
         snap = snapshot(odb)
         case = {"verify_add": {"corrupt_source": corrupt, "mismatching_preexisting": pre, "local": local, "state": with_state,
-                               "hardlink": hardlink, "source_mode": oct(os.stat(p).st_mode & 0o777)}}
+                               "hardlink": hardlink, "source_mode": oct(os.stat(p).st_mode & 0o777), "route": route,
+                               "verify_arg": varg, "source_store": None if src_local is None else ("local" if src_local else "generic")}}
         ctx.case(case, nontrivial=corrupt or pre)
         ctx.count("verify_add:corrupt=%s" % corrupt)
+        ctx.count("verify_add:route=%s verify=%s" % (route, varg))
         ok = all(v[0] == o.split(".")[0] for o, v in snap.items())
-        ctx.oracle(kind == "ok" and ok, case, {"why": "a verifying store retained a mismatching object", "store": snap, "result": res})
+        ctx.oracle(kind == "ok" and ok, case, {"why": "a verifying store retained a mismatching object", "store": snap, "result": res,
+                                                "failed": errs})
+        if corrupt and route == "transfer" and kind == "ok":
+            ctx.oracle(oid not in res, case, {"why": "transfer into a verifying store reported a mismatching object as transferred",
+                                              "transferred": res, "failed": errs})
         if not corrupt:
-            ctx.oracle(oid in snap, case, {"why": "an intact object was not added", "store": snap})
+            ctx.oracle(oid in snap, case, {"why": "an intact object was not added", "store": snap, "result": res, "failed": errs})
 
 
 def run_failed_add(ctx, n):
@@ -344,7 +380,7 @@ def run(ctx):
         "stores of both classes with 2-4 file objects and a directory object, hash-state cache absent / warm (entry saved by add); "
         "histories of 3-8 steps of tampering (truncate, append, rewrite with same or different length, replace by rename; mode "
         "left writable or re-protected; mtime moved forward by 1 ms to 2.5 s relative to the previous one), check(), oids_exist(), and forced checkout of the "
-        "directory object before and after tampering; verifying add with corrupt sources and mismatching pre-existing objects; adds that fail (source gone / unreadable, check_exists off as transfer issues them) over a tampered object. "
+        "directory object before and after tampering; verifying add with corrupt sources and mismatching pre-existing objects, the caller's verify left out / None / True, issued directly or by transfer() from a generic or local (write-protected) source store, with and without hard links; adds that fail (source gone / unreadable, check_exists off as transfer issues them) over a tampered object. "
         "non-trivial = at least one tamper step"
     )
     ctx.assumptions = ["tampering is visible in (inode, mtime, size)", "a local object whose mode is exactly 0o444 is trusted without hashing (by design)"]
